@@ -4,7 +4,7 @@
    statements: FortranEngine.solve_t / _evaluate over the compiled module = the pure-Python class. *)
 From Coq Require Import ZArith List Bool Lia ZifyBool.
 Import ListNotations.
-Require Import PyBase Solver SolverFacts FSem FSemFacts FSolve FSolveFacts FSolveSim.
+Require Import PyBase Solver SolverFacts FSem FSemFacts FSolve FSolveFacts FSolveSim FSolveRun.
 Open Scope Z_scope.
 
 Section Pass.
@@ -125,9 +125,43 @@ Section Pass.
   Notation solve_t_M := (solve_t_M num sub absf ltb isfin zero).
   Notation no_hook := (no_hook num).
 
+  (* the passes that run: along the statements of pass j+1 max / min stay clear of NaN and of zeros of opposite sign and
+     (when numpy warnings are errors) nothing leaves the finite range; the pass leaves finite check / endogenous values;
+     unless it ends the iteration the same is asked of the next pass *)
+  Fixpoint run_ok_prog (catch : bool) (prog : list eqn) (d : mdesc) (o : opts num) (p : nat) (v1 : vals) (n' j : nat) : Prop :=
+    match n' with
+    | O => True
+    | S n'' =>
+        let vj := iterv num (f_pass prog) p v1 j in
+        let c0 := chk num zero (f_pass prog) d p v1 j in
+        let c1 := chk num zero (f_pass prog) d p v1 (S j) in
+        pass_ok catch prog p vj /\
+        all_finite num isfin c1 = true /\ endo_fin num isfin zero (f_pass prog) d p v1 (S j) = true /\
+        (if Z.of_nat (S j) <? min_iter o then run_ok_prog catch prog d o p v1 n'' (S j)
+         else if conv num sub absf ltb (tol o) c1 c0 then True else run_ok_prog catch prog d o p v1 n'' (S j))
+    end.
+
+  Lemma run_ok_of_prog (prog : list eqn) d o t p n m v1 :
+    prog_scoped m (Z.of_nat (lags d)) (Z.of_nat (leads d)) prog ->
+    py_pos n t = Some p -> (lags d <= p)%nat -> (p + leads d < n)%nat ->
+    forall n' j, shape n m (iterv num (f_pass prog) p v1 j) ->
+    run_ok_prog (is_raise (errors o) && catch_first o) prog d o p v1 n' j ->
+    run_ok num sub absf ltb isfin zero (f_pass prog) (py_hook prog n) d o t p v1 n' j.
+  Proof.
+    intros Hsc Hpos Hl1 Hl2. induction n' as [|n' IH]; intros j Hs Hr; cbn [run_ok]; [exact I|].
+    cbn [run_ok_prog] in Hr. destruct Hr as (Hok & Hc & He & Hnext).
+    assert (Hs' : shape n m (iterv num (f_pass prog) p v1 (S j))) by (cbn [iterv]; apply f_pass_shape; exact Hs).
+    split; [|split; [exact Hc|split; [exact He|]]].
+    - unfold FSem.py_hook.
+      apply (pass_agree _ n m (Z.of_nat (lags d)) (Z.of_nat (leads d)) t p prog); auto; lia.
+    - destruct (Z.of_nat (S j) <? min_iter o); [apply IH; assumption|].
+      destruct (conv num sub absf ltb (tol o) _ _); [exact I|apply IH; assumption].
+  Qed.
+
   (* FortranEngine.solve_t over the module generated from `prog` = solve_t of the class generated from `prog` (same return
      value / exception class, same values, statuses and iteration counts): literal-free program, feasible period (either
-     spelling of t), every option of the lattice with max_iter >= 1, offsets inside the span, values that stay finite *)
+     spelling of t), every option of the lattice with max_iter >= 1, offsets inside the span, finite values along the passes
+     that run *)
   Theorem solve_t_engines_agree (prog : list eqn) fm d o t s p n m :
     shape n m (vals_of s) -> length (status s) = n -> (0 < m)%nat ->
     rows_ok m (check d) -> rows_ok m (endo d) ->
@@ -136,28 +170,19 @@ Section Pass.
     py_pos n t = Some p -> feasible d n p = true ->
     errors o <> EInvalid -> 0 < max_iter o -> min_iter o <= max_iter o ->
     (offset o = 0 \/ 0 <= Z.of_nat p + offset o < Z.of_nat n) ->
-    let evf := f_pass prog in
     let v0 := seeded num zero d o (vals_of s) p in
-    let N := Z.to_nat (max_iter o) in
-    (forall i, (i < N)%nat -> pass_ok (is_raise (errors o) && catch_first o) prog p (iterv num evf p v0 i)) ->
-    stays_finite num isfin zero evf d p v0 N ->
-    agree num (w_solve_t evf fm d o t s) (solve_t_M (py_hook prog n) no_hook no_hook d o t s).
+    all_finite num isfin (get_check num zero d v0 p) = true ->
+    run_ok_prog (is_raise (errors o) && catch_first o) prog d o p v0 (Z.to_nat (max_iter o)) 0 ->
+    agree num (w_solve_t (f_pass prog) fm d o t s) (solve_t_M (py_hook prog n) no_hook no_hook d o t s).
   Proof.
-    intros Hs Hlen Hm Hchk Hend Hfe Hfl Hfd Hsc Hpos Hfeas Hinv Hmax Hmm Hoff evf v0 N Hok Hfin.
-    assert (Hshape : forall v, shape n m v -> shape n m (evf (Z.of_nat p + 1) v)) by (intros v Hv; apply f_pass_shape; exact Hv).
+    intros Hs Hlen Hm Hchk Hend Hfe Hfl Hfd Hsc Hpos Hfeas Hinv Hmax Hmm Hoff v0 Hf0 Hrun.
+    assert (Hshape : forall v, shape n m v -> shape n m (f_pass prog (Z.of_nat p + 1) v)) by (intros v Hv; apply f_pass_shape; exact Hv).
     assert (Hs0 : shape n m v0) by (apply seeded_shape; exact Hs).
-    assert (Hit : forall i, shape n m (iterv num evf p v0 i)).
-    { induction i as [|i IHi]; cbn [iterv]; auto. }
     assert (Hf12 : (lags d <= p)%nat /\ (p + leads d < n)%nat).
     { unfold feasible in Hfeas. apply andb_true_iff in Hfeas as [Hf1 Hf2]. split; lia. }
     destruct Hf12 as [Hf1 Hf2].
-    assert (Hev : forall i k, (i < N)%nat ->
-              py_hook prog n t (errors o) (catch_first o) k (iterv num evf p v0 i)
-              = (evf (Z.of_nat p + 1) (iterv num evf p v0 i), None)).
-    { intros i k Hi. unfold FSem.py_hook.
-      apply (pass_agree _ n m (Z.of_nat (lags d)) (Z.of_nat (leads d)) t p prog); auto; try lia. }
-    assert (Hreg : regime_from num sub absf ltb isfin zero evf d o p v0 0 N) by (apply finite_regime; exact Hfin).
-    apply (w_solve_t_refines num sub absf ltb isfin zero evf (py_hook prog n) no_hook no_hook fm d o t s p n m); auto.
+    apply (w_solve_t_refines_run num sub absf ltb isfin zero (f_pass prog) (py_hook prog n) no_hook no_hook fm d o t s p n m); auto.
+    apply (run_ok_of_prog prog d o t p n m v0 Hsc Hpos Hf1 Hf2); [exact Hs0|exact Hrun].
   Qed.
 
   (* ================================================================== end to end: _evaluate *)
